@@ -43,7 +43,11 @@ META = {
         "reaches the next iteration without storing the rejected value, and re-stores a clean value on every path when the raw value was stored before validation or a validator may store before rejecting (R5). __post_init__ validates every field, copy re-validates, "
         "both front ends build the global config through the constructor inside a handler covering TypeError/ValueError with a default "
         "fallback, and registering/reading loops use the same omit filter (R6). No raise-condition conjoins `x is not a T` with a "
-        "type test on x's members (R7). In validators the bare truthiness of the validated value (or of an item of it) never selects the accepting "
+        "type test on x's members (R7). Round-4 additions: for fields flagged merge_topmatter every successful path through the update loop "
+        "ends with the merged dict as the last store (R3); the value the handler re-stores is computed from the incoming configuration or the copy, "
+        "not from another default (R5); a field that is mutated in place and restored by re-binding gets a freshly built container from its validator "
+        "on every accepting path, so that copy() never shares it with the global object (R4); the Sphinx builder-inited handler binds env.myst_config "
+        "on every normal path (R6). In validators the bare truthiness of the validated value (or of an item of it) never selects the accepting "
         "path unless an isinstance test on it dominates (R8: `if not value: return` where `value is None` was meant)."
     ),
     "not_decided": (
@@ -732,6 +736,57 @@ def _enclosing_try(call: ast.AST) -> ast.Try | None:
     return None
 
 
+def _origin_seeds(f: FunctionInfo, obj: str) -> set[str]:
+    """The validated object and the object(s) it was copied from (``obj = src.copy()``)."""
+    seeds = {obj}
+    for n in f.local_nodes():
+        if isinstance(n, ast.Assign) and any(isinstance(t, ast.Name) and t.id == obj for t in n.targets):
+            v = n.value
+            if isinstance(v, ast.Call) and isinstance(v.func, ast.Attribute) and v.func.attr == "copy" and isinstance(v.func.value, ast.Name):
+                seeds.add(v.func.value.id)
+            elif isinstance(v, ast.Call) and (dotted(v.func) or "").rsplit(".", 1)[-1] in ("replace", "copy", "deepcopy") and v.args and isinstance(v.args[0], ast.Name):
+                seeds.add(v.args[0].id)
+    return seeds
+
+
+def _derived_names(f: FunctionInfo, seeds: set[str]) -> set[str]:
+    """Names whose value is computed from ``seeds`` (flow-insensitive closure over assignments and loop targets)."""
+    der = set(seeds)
+    changed = True
+    while changed:
+        changed = False
+        for n in f.local_nodes():
+            if isinstance(n, ast.Assign):
+                tg, val = n.targets, n.value
+            elif isinstance(n, (ast.AnnAssign, ast.AugAssign)) and n.value is not None:
+                tg, val = [n.target], n.value
+            elif isinstance(n, ast.For):
+                tg, val = [n.target], n.iter
+            else:
+                continue
+            if not (_free_names(val) & der):
+                continue
+            for t in tg:
+                for x in ast.walk(t):
+                    if isinstance(x, ast.Name) and isinstance(x.ctx, ast.Store) and x.id not in der:
+                        der.add(x.id)
+                        changed = True
+                for tt in (t.elts if isinstance(t, (ast.Tuple, ast.List)) else [t]):
+                    # d[k] = v / d.a = v: the container now carries the derived value
+                    root = _root_name(tt) if isinstance(tt, (ast.Subscript, ast.Attribute)) else None
+                    if root is not None and root not in der:
+                        der.add(root)
+                        changed = True
+        for n in f.local_nodes():
+            # d.update(v) / l.append(v) / d.setdefault(k, v)
+            if isinstance(n, ast.Call) and isinstance(n.func, ast.Attribute) and n.func.attr in MUTATORS:
+                root = _root_name(n.func.value)
+                if root is not None and root not in der and any(_free_names(a) & der for a in list(n.args) + [kw.value for kw in n.keywords]):
+                    der.add(root)
+                    changed = True
+    return der
+
+
 def catching_callers(corpus: Corpus) -> list[tuple[FunctionInfo, ast.Call, ast.ExceptHandler, bool, str]]:
     """Call sites that apply validators to an object and survive a rejection: (function, call, handler,
     restores?, why).  ``restores`` = every path from the handler to the code that goes on using the object
@@ -761,9 +816,13 @@ def catching_callers(corpus: Corpus) -> list[tuple[FunctionInfo, ast.Call, ast.E
                 cfg = get_cfg(f)
                 hdr = cfg.loops.get(cfg.stmt_of(n))
                 clean = set()
+                origin = _derived_names(f, _origin_seeds(f, obj)) - {fieldvar}
                 for st in obj_stores(f, obj):
                     if st.value is not None and _expr_kind(st.value, raw, unknown) == "clean":
-                        clean.add(cfg.stmt_of(st.node))
+                        if _free_names(st.value) & origin:
+                            clean.add(cfg.stmt_of(st.node))
+                        elif any(st.node is x for hh in tr.handlers for hs in hh.body for x in ast.walk(hs)):
+                            corpus._cache.setdefault("c13-foreign-restores", []).append((f, st.node))
                 for h in tr.handlers:
                     stops = [x for x in ((hdr,) if hdr is not None else ()) + ("EXIT",)]
                     unrestored = any(cfg.paths_avoiding(("H", h), stop, lambda x: x in clean) for stop in stops)
@@ -820,6 +879,46 @@ def r2_commit_after_validate(corpus: Corpus, rep: Report, tier: str):
 TRANSPARENT_CALLS = {"dict", "list", "tuple", "set", "frozenset", "copy", "deepcopy", "copy.copy", "copy.deepcopy"}
 
 
+def _pure_helper(call: ast.Call):
+    """(FunctionInfo, returned expr) when ``call`` goes to a module-level helper that is just ``return <expr over its params>``."""
+    if not isinstance(call.func, ast.Name):
+        return None
+    mod = getattr(call, "_mod", None)
+    callee = mod.functions.get(call.func.id) if mod is not None else None
+    if callee is None or callee.is_lambda or callee.cls is not None:
+        return None
+    body = [st for st in callee.node.body if not (isinstance(st, ast.Expr) and isinstance(st.value, ast.Constant))]
+    if len(body) != 1 or not isinstance(body[0], ast.Return) or body[0].value is None:
+        return None
+    ret = body[0].value
+    if any(isinstance(x, ast.Call) and (dotted(x.func) or "") not in TRANSPARENT_CALLS for x in ast.walk(ret)):
+        return None
+    if not (_free_names(ret) - set(TRANSPARENT_CALLS)) <= set(callee.params):
+        return None
+    return callee, ret
+
+
+def merge_operands(n: ast.AST, raw: set[str]):
+    """Operands (in override order) when ``n`` builds a merged dict: ``{**a, **b}``, ``a | b`` or a pure helper returning one;
+    the string "inplace" for ``a.update(b)``; None otherwise."""
+    if isinstance(n, ast.Dict) and n.keys and len(n.keys) >= 2 and all(kk is None for kk in n.keys):
+        return list(n.values)
+    if isinstance(n, ast.BinOp) and isinstance(n.op, ast.BitOr) and not isinstance(parent(n), ast.Subscript) and _free_names(n) & raw and not _free_names(n) <= raw:
+        return [n.left, n.right]
+    if isinstance(n, ast.Call) and isinstance(n.func, ast.Attribute) and n.func.attr == "update" and any(_free_names(a) & raw for a in n.args) and not (_free_names(n.func.value) & raw):
+        return "inplace"
+    if isinstance(n, ast.Call):
+        ph = _pure_helper(n)
+        if ph is not None and not n.keywords and not any(isinstance(a, ast.Starred) for a in n.args):
+            callee, ret = ph
+            inner = ret.values if isinstance(ret, ast.Dict) and ret.keys and len(ret.keys) >= 2 and all(kk is None for kk in ret.keys) else [ret.left, ret.right] if isinstance(ret, ast.BinOp) and isinstance(ret.op, ast.BitOr) else None
+            if inner and all(isinstance(x, ast.Name) and x.id in callee.params and callee.params.index(x.id) < len(n.args) for x in inner):
+                ops = [n.args[callee.params.index(x.id)] for x in inner]
+                if any(_free_names(o) & raw for o in ops):
+                    return ops
+    return None
+
+
 def _expr_kind(e: ast.AST, raw: set[str], unknown: set[str]) -> str:
     """clean | raw | unknown - how ``e`` relates to the raw value."""
     names = _free_names(e)
@@ -830,7 +929,7 @@ def _expr_kind(e: ast.AST, raw: set[str], unknown: set[str]) -> str:
 
     def transparent(n: ast.AST) -> bool:
         if isinstance(n, ast.Call):
-            if not ((dotted(n.func) or "") in TRANSPARENT_CALLS):
+            if not ((dotted(n.func) or "") in TRANSPARENT_CALLS) and _pure_helper(n) is None:
                 # a call that receives the raw value may normalise it
                 inner = set()
                 for a in list(n.args) + [kw.value for kw in n.keywords]:
@@ -878,7 +977,48 @@ class ObjStore:
         self.attr: ast.expr | str | None = attr
 
 
+def _helper_stores(f: FunctionInfo, obj: str) -> list[ObjStore]:
+    """Stores made by a module-level helper that receives ``obj``: the helper's stored value is mapped back to the
+    caller's argument expressions (a tuple of them when several parameters are involved)."""
+    out = []
+    for n in f.local_nodes():
+        if not (isinstance(n, ast.Call) and isinstance(n.func, ast.Name)) or n.keywords and any(k.arg is None for k in n.keywords):
+            continue
+        callee = f.module.functions.get(n.func.id)
+        if callee is None or callee.fq == f.fq or callee.is_lambda or callee.cls is not None:
+            continue
+        params = callee.params
+        bound: dict[str, ast.expr] = {}
+        for i, a in enumerate(n.args):
+            if isinstance(a, ast.Starred) or i >= len(params):
+                bound = {}
+                break
+            bound[params[i]] = a
+        for kw in n.keywords:
+            if kw.arg in params:
+                bound[kw.arg] = kw.value
+        for pname, a in list(bound.items()):
+            if not (isinstance(a, ast.Name) and a.id == obj):
+                continue
+            for st in _plain_obj_stores(callee, pname):
+                if st.value is None:
+                    out.append(ObjStore(n, None, None))
+                    continue
+                used = _free_names(st.value)
+                local_defs = {x.id for x in callee.local_nodes() if isinstance(x, ast.Name) and isinstance(x.ctx, ast.Store)}
+                if used & local_defs:
+                    raise Unsupported(f"helper {callee.qualname} computes the stored value locally: {short(st.value, 50)}")
+                args = [bound[u] for u in sorted(used) if u in bound]
+                val = args[0] if len(args) == 1 and isinstance(st.value, ast.Name) else ast.Tuple(elts=args or [ast.Constant(value=None)], ctx=ast.Load())
+                out.append(ObjStore(n, val, None))
+    return out
+
+
 def obj_stores(f: FunctionInfo, obj: str) -> list[ObjStore]:
+    return _plain_obj_stores(f, obj) + _helper_stores(f, obj)
+
+
+def _plain_obj_stores(f: FunctionInfo, obj: str) -> list[ObjStore]:
     out = []
     for n in _direct_stores(f, obj):
         if isinstance(n, ast.Call):
@@ -901,8 +1041,24 @@ def obj_stores(f: FunctionInfo, obj: str) -> list[ObjStore]:
     return out
 
 
-def _metadata_flag(t: ast.expr, fieldvar: str) -> str | None:
-    """Constant K when ``t`` tests ``<fieldvar>.metadata`` for K (get / subscript / in)."""
+def _metadata_flag(t: ast.expr, fieldvar: str, _depth: int = 0) -> str | None:
+    """Constant K when ``t`` tests ``<fieldvar>.metadata`` for K - directly, through ``bool(...)`` or through a local
+    name that is assigned exactly once from such a test."""
+    if isinstance(t, ast.Call) and dotted(t.func) == "bool" and len(t.args) == 1 and not t.keywords:
+        return _metadata_flag(t.args[0], fieldvar, _depth + 1)
+    if isinstance(t, ast.Name) and _depth < 3:
+        from ..corpus import enclosing_function
+
+        f = enclosing_function(t)
+        if f is not None:
+            defs = [n.value for n in f.local_nodes() if isinstance(n, (ast.Assign, ast.AnnAssign)) and n.value is not None and any(isinstance(x, ast.Name) and x.id == t.id for x in (n.targets if isinstance(n, ast.Assign) else [n.target]))]
+            if len(defs) == 1 and t.id not in f.params:
+                return _metadata_flag(defs[0], fieldvar, _depth + 1)
+        return None
+    return _metadata_flag_direct(t, fieldvar)
+
+
+def _metadata_flag_direct(t: ast.expr, fieldvar: str) -> str | None:
     md = f"{fieldvar}.metadata"
     if isinstance(t, ast.Call) and isinstance(t.func, ast.Attribute) and t.func.attr == "get" and unparse(t.func.value) == md and t.args and isinstance(t.args[0], ast.Constant):
         if len(t.args) == 1 and not t.keywords:
@@ -1011,7 +1167,108 @@ def r3_no_raw_overwrite(corpus: Corpus, rep: Report, tier: str):
         for c in reval:
             n += 1
             rep.ok("C13.R3", f"{mfl.fq}|{short(c, 60)}", mfl.module.site(c), "update applied through the validating constructor")
+    _r3_merge_last_store(corpus, rep)
     rep.expect_min("C13.R3", 1, "the per-field update in merge_file_level")
+
+
+def _merge_exprs(f: FunctionInfo, raw: set[str]) -> list[ast.AST]:
+    return [n for n in f.local_nodes() if isinstance(merge_operands(n, raw), list)]
+
+
+def _r3_merge_last_store(corpus: Corpus, rep: Report) -> None:
+    """For fields flagged merge_topmatter: on every path of one iteration that stores at all and does not pass a
+    handler, the last store on the object is the merged dict (never the bare front-matter dict)."""
+    mfl = corpus.func(f"{MAIN}:merge_file_level")
+    mod = mfl.module
+    calls = [c for f, c in _validate_field_calls(corpus) if f.fq == mfl.fq]
+    if not any(fl.meta.get("merge_topmatter") is not None for fl in config_fields(corpus)):
+        return
+    for call in calls:
+        obj, fieldvar, val = _vf_args(call)
+        raw, unknown = taint(mfl, val)
+        cfg = get_cfg(mfl)
+        hdr = cfg.loops.get(cfg.stmt_of(call))
+        if hdr is None:
+            continue
+        merges = _merge_exprs(mfl, raw)
+        merge_ids = {id(m) for m in merges}
+        stores = {}
+        for st in obj_stores(mfl, obj):
+            stores.setdefault(cfg.stmt_of(st.node), []).append(st)
+        # names that hold the merged dict after `x = {**old, **x}`
+        merge_assign = {}
+        for n in mfl.local_nodes():
+            if isinstance(n, ast.Assign) and len(n.targets) == 1 and isinstance(n.targets[0], ast.Name) and n.value is not None:
+                merge_assign[n] = n.targets[0].id
+
+        def is_flag(t: ast.expr) -> bool:
+            return _metadata_flag(t, fieldvar) == "merge_topmatter"
+
+        def pruned(edge_node) -> bool:
+            # an edge that is only taken by fields WITHOUT the merge flag
+            if isinstance(edge_node, tuple) and edge_node[0] in ("T", "F") and isinstance(edge_node[1], ast.If):
+                return any(is_flag(t) and not pol for t, pol in flow_facts(edge_node[1].test, edge_node[0] == "T"))
+            return isinstance(edge_node, tuple) and edge_node[0] == "H"  # handler paths: R5
+
+        def for_merge_field(e: ast.expr) -> ast.expr:
+            # `A if flag else B` evaluated for a field that carries the flag
+            while isinstance(e, ast.IfExp):
+                fs_t = flow_facts(e.test, True)
+                fs_f = flow_facts(e.test, False)
+                if any(is_flag(t) and pol for t, pol in fs_t) and len(fs_t) == 1:
+                    e = e.body
+                elif any(is_flag(t) and not pol for t, pol in fs_t) and len(fs_t) == 1:
+                    e = e.orelse
+                else:
+                    break
+            return e
+
+        start = ("T", hdr)
+        seen = set()
+        work = [(start, "none", frozenset())]
+        witness = None
+        while work:
+            node, last, merged_names = work.pop()
+            key = (id(node) if not isinstance(node, tuple) else (node[0], id(node[1])), last, merged_names)
+            if key in seen:
+                continue
+            seen.add(key)
+            if node is hdr and last == "raw":
+                witness = True
+                break
+            if node is hdr and node is not start:
+                continue
+            if node in merge_assign:
+                v = for_merge_field(node.value)
+                if id(v) in merge_ids or (isinstance(v, ast.Name) and v.id in merged_names):
+                    merged_names = merged_names | {merge_assign[node]}
+                else:
+                    merged_names = merged_names - {merge_assign[node]}
+            for st in stores.get(node, []):
+                v = for_merge_field(st.value) if st.value is not None else None
+                if v is None:
+                    last = "ok"
+                elif id(v) in merge_ids or (isinstance(v, ast.Name) and v.id in merged_names):
+                    last = "ok"
+                else:
+                    kind = _expr_kind(v, raw, unknown)
+                    last = "raw" if kind == "raw" else "ok"
+            for nx in cfg.succ.get(node, []):
+                if nx in ("EXIT", "RAISE") or pruned(nx):
+                    continue
+                work.append((nx, last, merged_names))
+        k = f"{mfl.fq}|fields flagged merge_topmatter|last store of a successful update is the merge"
+        site = mod.site(merges[0]) if merges else mod.site(call)
+        if witness:
+            rep.violation(
+                "C13.R3",
+                k,
+                site,
+                "for a field flagged merge_topmatter some successful path through the update loop ends with the bare front-matter dict as the last store "
+                "(the merge is skipped under an additional condition): that dict replaces the global one instead of merging over it, e.g. `substitutions: {}` wipes the global substitutions",
+            )
+        else:
+            rep.ok("C13.R3", k, site, "every successful path that stores ends with the merged dict")
 
 
 # ---------------------------------------------------------------------------
@@ -1098,8 +1355,14 @@ def r5_invalid_value_path(corpus: Corpus, rep: Report, tier: str):
             if pre or hazard:
                 restored = [r for cf, c, hh, r, _ in catching_callers(corpus) if hh is h]
                 reason = f"`{short(pre[0].node, 50)}` stores the raw value before it is validated" if pre else f"{', '.join(hazard)} can store before rejecting"
+                foreign = [nd for ff, nd in corpus._cache.get("c13-foreign-restores", []) if ff.fq == mfl.fq]
                 if restored and all(restored):
-                    note = f"{reason}; the handler re-stores a clean value on every path"
+                    note = f"{reason}; the handler re-stores the incoming configuration's value on every path"
+                elif foreign:
+                    problems.append(
+                        f"{reason}, and the handler re-stores `{short(foreign[0], 60)}`, a value that is computed neither from the incoming configuration nor from the copy: "
+                        "an invalid front-matter value must leave the global value in effect, not some other default"
+                    )
                 else:
                     problems.append(f"{reason}, and some path from the handler to the next update stores nothing over it: the rejected value stays in effect")
             if problems:
@@ -1430,6 +1693,59 @@ def _restored_in_finally(f: FunctionInfo, node: ast.AST) -> str | None:
     return None
 
 
+FRESH_CALLS = {"set", "frozenset", "dict", "list", "sorted", "copy", "deepcopy", "copy.copy", "copy.deepcopy"}
+
+
+def _is_fresh(f: FunctionInfo, e: ast.expr, depth: int = 0) -> bool:
+    if isinstance(e, (ast.Dict, ast.Set, ast.List, ast.DictComp, ast.SetComp, ast.ListComp)):
+        return True
+    if isinstance(e, ast.Call):
+        d = dotted(e.func) or ""
+        return d in FRESH_CALLS or (isinstance(e.func, ast.Attribute) and e.func.attr == "copy")
+    if isinstance(e, ast.Name) and depth < 3:
+        defs = [n.value for n in f.local_nodes() if isinstance(n, ast.Assign) and any(isinstance(t, ast.Name) and t.id == e.id for t in n.targets)]
+        defs += [n.value for n in f.local_nodes() if isinstance(n, ast.AnnAssign) and isinstance(n.target, ast.Name) and n.target.id == e.id and n.value is not None]
+        return bool(defs) and e.id not in f.params and all(_is_fresh(f, d, depth + 1) for d in defs)
+    return False
+
+
+def _fresh_container_per_instance(corpus: Corpus, rep: Report, fname: str, user: FunctionInfo, node: ast.AST) -> None:
+    """A field that is mutated in place and restored by re-binding must be a container owned by the one config object:
+    copy() = dc.replace passes the same object to the new instance, so the validator has to store a fresh container on
+    every validation - otherwise the per-document copy and the global config share it and the re-binding does not undo the mutation."""
+    fld = next((x for x in config_fields(corpus) if x.name == fname), None)
+    if fld is None:
+        return
+    mod = corpus.mod(MAIN)
+    k = f"{mod.name}:{CONFIG_CLS}.{fname}|own container per instance (mutated in place by {user.qualname})"
+    v = fld.meta.get("validator")
+    kind = classify_validator(corpus, mod, v) if v is not None else None
+    if kind is None or kind[0] != "custom":
+        rep.violation("C13.R4", k, user.module.site(node), f"`{fname}` is mutated in place by {user.qualname}, but its validator never stores a fresh container: copy() shares the object with the global configuration")
+        return
+    vf = kind[1]
+    cfg = get_cfg(vf)
+    stores = obj_stores(vf, vf.params[0])
+    if not stores:
+        rep.violation("C13.R4", k, vf.site(), f"`{fname}` is mutated in place by {user.qualname}, but {vf.qualname} never stores a fresh container: copy() shares the object with the global configuration")
+        return
+    fresh_stmts = {cfg.stmt_of(st.node) for st in stores if st.value is not None and _is_fresh(vf, st.value)}
+    stale = [st for st in stores if st.value is not None and not _is_fresh(vf, st.value)]
+    site = vf.module.site(stores[0].node) if stores else vf.site()
+    if stale:
+        rep.violation("C13.R4", k, vf.module.site(stale[0].node), f"{vf.qualname} stores `{short(stale[0].value, 40)}`, not a freshly built container, although {user.qualname} mutates `{fname}` in place: the copy made for a document shares the object with the global configuration")
+    elif cfg.paths_avoiding("ENTRY", "EXIT", lambda n: n in fresh_stmts):
+        rep.violation(
+            "C13.R4",
+            k,
+            site,
+            f"{vf.qualname} can return normally without storing a fresh container (the store is conditional), although {user.qualname} mutates `{fname}` in place and restores it by re-binding: "
+            "copy()/dc.replace hands the global configuration's own object to the per-document copy, the in-place mutation reaches the global object and the re-binding of the copy's attribute does not undo it",
+        )
+    else:
+        rep.ok("C13.R4", k, site, f"{vf.qualname} stores a freshly built container on every accepting path")
+
+
 def _copy_locals(mfl: FunctionInfo) -> tuple[str, set[str]]:
     """(global-config parameter, locals assigned only from <param>.copy(...))."""
     gparam = mfl.params[0]
@@ -1482,6 +1798,8 @@ def r4_config_writers(corpus: Corpus, rep: Report, tier: str):
                 why = _restored_in_finally(f, node)
                 if why:
                     rep.assumed("C13.R4", k, site, why + " (net effect on the shared object: none; C15.R2)")
+                    if kind == "mutate" and isinstance(node, ast.Call) and isinstance(node.func, ast.Attribute) and isinstance(node.func.value, ast.Attribute):
+                        _fresh_container_per_instance(corpus, rep, node.func.value.attr, f, node)
                 else:
                     rep.violation(
                         "C13.R4",
@@ -1529,12 +1847,9 @@ def r4_config_writers(corpus: Corpus, rep: Report, tier: str):
         raw, unknown = taint(mfl, val)
         merges = []
         for n in mfl.local_nodes():
-            if isinstance(n, ast.Dict) and sum(1 for kk in n.keys if kk is None) >= 2 and all(kk is None for kk in n.keys):
-                merges.append((n, list(n.values)))
-            elif isinstance(n, ast.BinOp) and isinstance(n.op, ast.BitOr) and not isinstance(parent(n), ast.Subscript) and _free_names(n) & raw:
-                merges.append((n, [n.left, n.right]))
-            elif isinstance(n, ast.Call) and isinstance(n.func, ast.Attribute) and n.func.attr == "update" and any(_free_names(a) & raw for a in n.args) and not (_free_names(n.func.value) & raw):
-                merges.append((n, None))
+            mo = merge_operands(n, raw)
+            if mo is not None:
+                merges.append((n, None if mo == "inplace" else mo))
         flagged = [t for n in mfl.local_nodes() if isinstance(n, ast.If) for t, p in flow_facts(n.test, True) if _metadata_flag(t, fieldvar) == "merge_topmatter"]
         if flagged and not merges:
             raise Unsupported("merge_file_level tests metadata['merge_topmatter'] but no dict merge expression was recognised")
@@ -1746,6 +2061,24 @@ def r6_entry_points_funnel(corpus: Corpus, rep: Report, tier: str):
                 rep.ok("C13.R6", k, outer.module.site(tr), f"except {unparse(hs[0].type) if hs[0].type else 'BaseException'} -> defaults")
             else:
                 rep.violation("C13.R6", k, outer.module.site(hs[0]), "the handler does not fall back to MdParserConfig() defaults")
+        # the global object is (re)built from the current conf values on every normal path
+        if tag == "sphinx":
+            bcfg = get_cfg(builder)
+            binds = {bcfg.stmt_of(n) for n in builder.local_nodes() if isinstance(n, ast.Assign) and any(isinstance(t, ast.Attribute) and t.attr == "myst_config" for t in n.targets)}
+            k = f"{builder.fq}|every normal path binds env.myst_config from the current conf values"
+            if not binds:
+                raise Unsupported(f"{builder.fq} never assigns *.myst_config")
+            if bcfg.paths_avoiding("ENTRY", "EXIT", lambda n: n in binds):
+                early = [r for r in builder.local_nodes() if isinstance(r, ast.Return) and bcfg.paths_avoiding("ENTRY", r, lambda n: n in binds)]
+                rep.violation(
+                    "C13.R6",
+                    k,
+                    builder.module.site(early[0]) if early else builder.site(),
+                    "the builder-inited handler can finish without (re)building env.myst_config: the environment is pickled between builds, so a config left over from "
+                    "an earlier build (or none at all) is used and the current myst_* conf values are neither validated nor applied",
+                )
+            else:
+                rep.ok("C13.R6", k, builder.site(), f"{len(binds)} binding statement(s) cover every path")
         # omit filters
         fb, fr = _omit_filters(builder), _omit_filters(registrar)
         k = f"{tag}|omit filter: {registrar.qualname} registers exactly what {builder.qualname} reads"
@@ -2069,4 +2402,43 @@ def mutants(corpus: Corpus):
     t = find_node(f, lambda n: isinstance(n, ast.If) and any(isinstance(x, ast.Raise) for x in n.body) and f.params[2] in _free_names(n.test))
     if t is not None:
         out.append(Mutant("c13-sub-delimiters-checked-only-when-truthy", "C13.R8", main.rel, splice(main.src, t.test, f"{f.params[2]} and ({_seg(main, t.test)})"), expect="check_sub_delimiters"))
+    # ---- round 4 classes
+    # (a) merge skipped under an extra condition (R3: last store for merge_topmatter fields)
+    mfl = main.func("merge_file_level")
+    vc = [c for ff, c in _validate_field_calls(corpus) if ff.fq == mfl.fq]
+    if vc:
+        obj, fieldvar, val = _vf_args(vc[0])
+        mif = find_node(mfl, lambda n: isinstance(n, ast.If) and any(_metadata_flag(t, fieldvar) == "merge_topmatter" and p for t, p in flow_facts(n.test, True)))
+        if mif is not None:
+            out.append(Mutant("c13-merge-skipped-for-empty-front-matter-dict", "C13.R3", main.rel, splice(main.src, mif.test, f"{_seg(main, mif.test)} and {val}"), expect="merge_topmatter"))
+            body0 = mif.body[0]
+            ind = _indent(main, body0)
+            out.append(Mutant("c13-merge-skipped-under-len-guard", "C13.R3", main.rel, splice(main.src, body0, f"if len({val}) > 0:\n{ind}    {_seg(main, body0)}"), expect="merge_topmatter"))
+        # (b) the handler restores a value that is not the incoming configuration's
+        tr = _enclosing_try(vc[0])
+        if tr is not None:
+            raw_, unk_ = taint(mfl, val)
+            rst = next((st for st in _plain_obj_stores(mfl, obj) if st.value is not None and _expr_kind(st.value, raw_, unk_) == "clean" and any(st.node is x for hs in tr.handlers[0].body for x in ast.walk(hs))), None)
+            if rst is not None:
+                nm = unparse(rst.attr) if isinstance(rst.attr, ast.AST) else "name"
+                out.append(Mutant("c13-handler-restores-a-fresh-default-config-value", "C13.R5", main.rel, splice(main.src, rst.value, f"getattr(MdParserConfig(), {nm})"), expect="neither from the incoming configuration"))
+                out.append(Mutant("c13-handler-restores-the-field-default", "C13.R5", main.rel, splice(main.src, rst.value, f"{fieldvar}.default"), expect="neither from the incoming configuration"))
+    # (c) the Sphinx builder-inited handler does not rebuild the config on every path
+    sm = corpus.mod("sphinx_ext.main")
+    f = sm.func("create_myst_config")
+    tr = find_node(f, lambda n: isinstance(n, ast.Try))
+    first = find_node(f, lambda n: isinstance(n, ast.Assign) and isinstance(n.targets[0], ast.Name) and n.targets[0].id == "values")
+    if tr is not None and first is not None and first in f.node.body:
+        ind = _indent(sm, first)
+        out.append(Mutant("c13-sphinx-config-kept-when-already-present", "C13.R6", sm.rel, splice(sm.src, first, f'if getattr(app.env, "myst_config", None) is not None:\n{ind}    return\n{ind}{_seg(sm, first)}'), expect="every normal path binds"))
+        lines = _seg(sm, tr).split("\n")
+        out.append(Mutant("c13-sphinx-config-built-only-when-absent", "C13.R6", sm.rel, splice(sm.src, tr, 'if not hasattr(app.env, "myst_config"):\n' + "\n".join(ind + "    " + l.lstrip() if i == 0 else "    " + l for i, l in enumerate(lines))), expect="every normal path binds"))
+    # (d) a field that is mutated in place does not get its own container on every validation
+    f = main.func("check_extensions")
+    st = find_node(f, lambda n: isinstance(n, ast.Expr) and isinstance(n.value, ast.Call) and dotted(n.value.func) == "setattr" and len(n.value.args) == 3)
+    if st is not None and st in f.node.body:
+        ind = _indent(main, st)
+        v = f.params[2]
+        out.append(Mutant("c13-extensions-stored-only-when-not-already-a-set", "C13.R4", main.rel, splice(main.src, st, f"if not isinstance({v}, set):\n{ind}    {_seg(main, st)}"), expect="own container per instance"))
+        out.append(Mutant("c13-extensions-set-passed-through-unchanged", "C13.R4", main.rel, splice(main.src, st.value.args[2], f"{v} if isinstance({v}, set) else {_seg(main, st.value.args[2])}"), expect="own container per instance"))
     return out
